@@ -42,11 +42,11 @@ impl Prop for P {
         }
     }
     fn cases(tier: Tier) -> u64 {
-        tier.pick(80_000, 800_000)
+        tier.pick(60_000, 800_000)
     }
     fn strategy(tier: Tier) -> BoxedStrategy<Case> {
         let sums = (len_strategy(tier.pick(300_000, 2_000_000)), prop_oneof![Just(0u8), Just(1u8), Just(2u8)], any::<u64>(), 0u32..=7000, proptest::collection::vec(any::<u32>(), 0..6)).prop_map(|(len, fill, seed, prefix, cuts)| Case::Sums { len, fill, seed, prefix, cuts });
-        let comp = (recipe(20_000, 3), config(), schedule(6), any::<bool>()).prop_map(|(data, cfg, sched, force_flag)| Case::CompRunning { data, cfg, sched, force_flag });
+        let comp = (prop_oneof![12 => recipe(20_000, 3), 1 => recipe(70_000, 2)], config(), schedule(6), any::<bool>()).prop_map(|(data, cfg, sched, force_flag)| Case::CompRunning { data, cfg, sched, force_flag });
         let ring = prop_oneof![2 => Just(None), 2 => (15u8..=16, any::<u32>(), any::<u64>()).prop_map(Some)];
         let dec = (prop_oneof![4 => valid_src(false), 1 => valid_src(true)], dec_sched(), ring, any::<bool>()).prop_map(|(src, sched, ring, compute_flag)| Case::DecRunning { src, sched, ring, compute_flag });
         let cs = (recipe(20_000, 3), -1i8..=10, any::<bool>(), proptest::collection::vec((prop_oneof![0u32..=3, 1u32..=3000], prop_oneof![1u32..=5, 1u32..=3000], proptest::sample::select(vec![0u8, 0, 0, 1, 2, 3])), 0..8), proptest::collection::vec(prop_oneof![0u32..=3, 1u32..=500, 1u32..=20000], 0..8), proptest::collection::vec(prop_oneof![1u32..=4, 1u32..=500, Just(1u32 << 16)], 1..4)).prop_map(|(data, level, zlib, steps, in_chunks, outs)| Case::CStream { data, level, zlib, steps, in_chunks, outs });
